@@ -223,7 +223,7 @@ pub fn has_suffix(path: &PathBuf, suffix: &PathBuf) -> (r: bool)
 #[verifier::external_body]
 pub fn fmt_concat(a: Str, b: &Str) -> (r: Str) ensures r@ == a@ + b@ { unimplemented!() }
 //@ item concat file=src/sys/fs/path.rs fn=concat props=C15,C12
-//@ rw R4 * ⟦format!("{}{}", path.as_ref().to_string()?, val.as_ref())⟧ => ⟦&fmt_concat(path.as_ref().to_string()?, val.as_ref())⟧
+//@ rw R4 * re⟦format!\("\{\}\{\}", (path\.as_ref\(\)\.to_string\(\)\?[^,]*), val\.as_ref\(\)\)⟧ => ⟦&fmt_concat(\1, val.as_ref())⟧
 //@ rw R1 * ⟦PathBuf::from(⟧ => ⟦PathBuf::from_s(⟧
 pub fn concat(path: &PathBuf, val: &Str) -> (r: RvResult<PathBuf>)
     ensures r is Ok == path.utf8_ok(), r is Ok ==> r->Ok_0.pstr() == path.pstr() + val@,     //@ clause concat.appends_without_separator [C15]
